@@ -20,9 +20,11 @@ package c19
 //	F<k>      a bearer token that NO server minted: forged at request time for client 0 and the
 //	          request's Host under a secret anybody could try - k = 0 no key, 1 zeros, 2 the
 //	          hostname, 3 the target's public key, 4 the secret of an unrelated deployment, 5 the
-//	          provided secret of the other instance (if it has one)
+//	          provided secret of the other instance (if it has one), 6 the first 32 bytes of the
+//	          target's provided secret, 7 the target's provided secret with its last byte changed
+//	          (6, 7: an unrelated secret if the target drew its own)
 //
-// Server 0 is given an HmacKey by the application, server 1 is left to draw its own secret.
+// Server 0 is given a 45-byte HmacKey by the application, server 1 is left to draw its own secret.
 //
 // ctl: bit 0 target instance, bits 1-2 Host (A, B, invalid, upper-cased A), bits 3-5 virtual
 // sleep before the request (0, 1s, 59s, 61s, 4m59s, 5m1s, 10m1s, 24h). Server 0 has TokenTTL 10
@@ -130,7 +132,14 @@ func forgedTokens(m material, w *world, target *server, host string) {
 	if o := w.other(target, 0); o.hmacKey != nil && o.domain != target.domain {
 		foreign = o.hmacKey
 	}
-	for k, key := range [][]byte{nil, make([]byte, 32), []byte(host), target.pub, ownSecret(17), foreign} {
+	first32, lastByte := ownSecret(17), ownSecret(17)
+	if k, _, ok := relatedSecret(target.hmacKey, 0); ok {
+		first32 = k
+	}
+	if k, _, ok := relatedSecret(target.hmacKey, 5); ok {
+		lastByte = k
+	}
+	for k, key := range [][]byte{nil, make([]byte, 32), []byte(host), target.pub, ownSecret(17), foreign, first32, lastByte} {
 		m["F"+string(rune('0'+k))] = b64(forge(key, tok))
 	}
 }
@@ -198,6 +207,20 @@ var fuzzSeeds = []string{
 	`libp2p-PeerID opaque="AAAAAAAAAAAAAAAAAAAAAAAAAAAAAAAAAAAAAAAAAAA=", sig="AAAA"`,
 	`libp2p-PeerID bearer="AAAAAAAAAAAAAAAAAAAAAAAAAAAAAAAAAAAAAAAAAAB7ImlzLXRva2VuIjp0cnVlfQ=="`,
 	`Bearer abc`,
+	// the syntax around a value altered (syntax_test.go)
+	`libp2p-PeerID bearer="$B0"AAAA"`,
+	`libp2p-PeerID bearer="$B0"AAAA`,
+	`libp2p-PeerID bearer="$B0"$B2"`,
+	`libp2p-PeerID bearer="$B0""`,
+	`libp2p-PeerID bearer=""$B0""`,
+	`libp2p-PeerID bearer=" $B0"`,
+	`libp2p-PeerID bearer='$B0'`,
+	`x"libp2p-PeerIDbearer="$B0"`,
+	`libp2p-PeerID opaque="$O0", sig="$S0"AAAA"`,
+	`libp2p-PeerID opaque="$O0"=, sig="$S0"`,
+	`libp2p-PeerID opaque="$O0, sig="$S0"`,
+	`libp2p-PeerID public-key="$K1"AAAA", challenge-server="$H1", sig="$S1", opaque="$O1"`,
+	`libp2p-PeerID public-key="$K1", challenge-server="$H1"x", sig="$S1", opaque="$O1"`,
 	// minted by nobody (must stay at the end: validSeeds refers to indices above)
 	`libp2p-PeerID bearer="$F0"`,
 	`libp2p-PeerID bearer="$F1"`,
@@ -205,6 +228,8 @@ var fuzzSeeds = []string{
 	`libp2p-PeerID bearer="$F3"`,
 	`libp2p-PeerID bearer="$F4"`,
 	`libp2p-PeerID bearer="$F5"`,
+	`libp2p-PeerID bearer="$F6"`,
+	`libp2p-PeerID bearer="$F7"`,
 	`libp2p-PeerID public-key="$K0", challenge-server="$H0", sig="$S0", opaque="$F0"`,
 }
 
@@ -226,7 +251,7 @@ type fuzzOutcome struct {
 
 func runFuzzCase(t *testing.T, tmpl []byte, ctl uint16) (out fuzzOutcome) {
 	synctest.Test(t, func(t *testing.T) {
-		w := newWorld(t, twoServers(srvConf{keyType: "ed25519", ttl: 10 * time.Minute, secret: secretOwn}, srvConf{keyType: "ed25519", ttl: time.Minute, secret: secretUnset}), fuzzIdentities())
+		w := newWorld(t, twoServers(srvConf{keyType: "ed25519", ttl: 10 * time.Minute, secret: secretOwn, hmac: keyMaterial(4242, 45)}, srvConf{keyType: "ed25519", ttl: time.Minute, secret: secretUnset}), fuzzIdentities())
 		m := mintMaterial(w, sessionsUsed(tmpl))
 		target := w.srv[ctl&1]
 		host := [...]string{hostNames[0], hostNames[1], invalidHost, strings.ToUpper(hostNames[0])}[(ctl>>1)&3]
